@@ -1,6 +1,7 @@
 // Runtime shared by all harness binaries: case execution wrapper, statistics, crash capture, main().
 // Compiled once by setup; does not include eventpp or rapidcheck.
 #include "harness.h"
+#include "leak.h"
 
 #include <csignal>
 #include <cstdio>
@@ -16,6 +17,7 @@
 #include <thread>
 
 extern "C" void __sanitizer_set_death_callback(void (*callback)(void)) __attribute__((weak));
+
 
 namespace vf {
 
@@ -201,6 +203,9 @@ bool runCase(const Program & p, bool shrinking)
 	Verdict v = g_harness.run(p, g_cfg.prop);
 	g_caseStartMs.store(0);
 	g_inCase = 0;
+	// a failing case has usually leaked as well: find out now, so that later (innocent) cases and shrink candidates are not
+	// blamed for that memory (see lsanPoisoned)
+	if(! v.ok) confirmLeak();
 
 	if(shrinking) ++g_stats.shrinkRuns;
 	else {
@@ -242,8 +247,13 @@ void dieWithFailure(const std::string & rule, const std::string & msg, int exitC
 	_exit(exitCode);
 }
 
+bool g_statsAlive = true;
+struct StatsLifetime { ~StatsLifetime() { g_statsAlive = false; } };
+
 void writeStats()
 {
+	static StatsLifetime lifetime; // destroyed before g_stats (constructed later): marks the end of safe access
+	if(! g_statsAlive) return;
 	std::string path = outPath("stats", "json");
 	FILE * f = fopen(path.c_str(), "w");
 	if(! f) return;
